@@ -162,6 +162,9 @@ def aggregate(prop, tier, seed, plan, results, t0):
         val = agg_all.get(name, stats.get(name, extra.get(name, 0)))
         if not isinstance(val, (int, float)) or val < minimum:
             floor_fail.append(f"{name}={val}<{minimum}")
+    if counters.get("store_internals_unreadable", 0):
+        # the stores no longer expose the state the reference models read (attribute renamed or removed): never "held"
+        floor_fail.append(f"store_internals_unreadable={counters['store_internals_unreadable']}")
     if prop != "C20" and cases and crashed > 0.25 * cases:
         # the workload dies before the deciding monitors can observe: never report this as "held"
         floor_fail.append(f"crashed_cases={crashed}>25%of{cases}")
